@@ -2,7 +2,7 @@
 META = dict(
   level_text='Bounded model checking, for all 64-bit coordinates up to 2^61, of the mechanisms that make rectilinear clipping rounding-free: a vertical edge reports its own x at every scanline and has slope exactly 0 (bit-precise IEEE division), a horizontal edge is classified by direction, TrimHorz merges a horizontal run up to the vertex the specification names (reversals kept iff PreserveCollinear, local maxima respected), ResetHorzDirection orders the extent. Cell-exactness of whole results needs the whole sweep (DoHorizontal, joins) and is not decided.',
   level_note='Vertex rings of 5 vertices for TrimHorz. ConvertHorzSegsToJoins / ProcessHorzJoins / Split are outside the claim.',
-  functions=['TopX', 'GetDx', 'SetDx', 'IsHorizontal', 'IsHeadingRightHorz/LeftHorz', 'TrimHorz', 'NextVertex', 'ClipperBase::ResetHorzDirection', 'ClipperBase::CheckJoinLeft', 'ClipperBase::CheckJoinRight'],
+  functions=['GetLastOp', 'ClipperBase::AddOutPt', 'TopX', 'GetDx', 'SetDx', 'IsHorizontal', 'IsHeadingRightHorz/LeftHorz', 'TrimHorz', 'NextVertex', 'ClipperBase::ResetHorzDirection', 'ClipperBase::CheckJoinLeft', 'ClipperBase::CheckJoinRight'],
   assumptions=['|coordinates| <= 2^61', 'horizontal runs of at most 4 further vertices'],
   outside=['DoHorizontal as a whole, horizontal joins, per-cell exactness of results'],
 )
